@@ -82,6 +82,15 @@ class DepWorld(RecvWorld):
             raise HarnessError("dependency code running outside a callback task")
         return n[1]
 
+    def idx_of(self, task_id: str) -> int:
+        if self._shared_ids:
+            # two deliveries carry this id: the one whose callback task is running
+            try:
+                return self.current_msg()
+            except HarnessError:
+                pass
+        return super().idx_of(task_id)
+
     def dep_open(self, name: str, child_vals: Any, ctx: Any = None) -> Any:
         i = self.current_msg()
         node = self.sc["deps"]["nodes"][name]
